@@ -71,7 +71,8 @@ class Check(CheckBase):
             "sweeps of C02 -- all loop modes --, CDDA file cases of C03) walked by an independent RIFF walker + stdlib wave, "
             "each AKAI/Roland case exported a second time into a destination that already holds longer files under the same "
             "names; AKAI volumes in which one sample's WAV cannot be built (negative MIDI note): reported files must "
-            "still be well-formed; "
+            "still be well-formed; sources that hold less audio than a header declares (AKAI count / end marker beyond the file, an "
+            "AKAI image cut inside a sample, a bin shorter than its cue sheet demands): reported files must still be well-formed; "
             "(ii) narrow seam SampleHeader parse -> generalized -> WAV builder: root key x semitone x cents bytes -- quick: "
             "the three 256x256 faces through 5 boundary values of the third byte, thorough: the full 256^3 product -- mono, "
             "and the faces again as L/R stereo pairs; L/R pairs of unequal length for every pair of lengths in {1,2,2047,2048,2049,4095,4096,"
@@ -134,6 +135,12 @@ class Check(CheckBase):
             c = shard["replay_case"]
             if c.get("origin") in ("c01", "c02"):
                 return self._sweep_case(c, rep)
+            if c.get("origin") == "short":
+                sub = Report()
+                self._short_sources(sub)
+                hit = [v for v in sub.violations if v["case"] == c]
+                rep.case(c, ok=not hit, klass="short", detail=hit[0]["detail"] if hit else None, sig="short:reported-file-invalid")
+                return
             if c.get("origin") == "poison":
                 sub = Report()
                 self._poison(sub)
@@ -148,6 +155,7 @@ class Check(CheckBase):
         elif o == "c03":
             self._cdda(rep)
             self._poison(rep)
+            self._short_sources(rep)
         elif o == "faces":
             step = shard.get("step", 1)
             for a in range(shard["lo"], shard["hi"], step):
@@ -247,6 +255,50 @@ class Check(CheckBase):
                         bad.append(f"{p}: {(w.errors[:2] if w else 'reported but missing')}")
                 rep.case(case, ok=not bad, klass=f"poison:{res['status']}:{len(res['reported'])}reported", nontrivial=True,
                          detail={"errors": bad[:3]} if bad else None, sig="poison:reported-file-invalid")
+
+    def _short_sources(self, rep):
+        """sources that hold LESS audio than a header declares (markers beyond the file, a truncated image, a bin shorter than
+        its cue sheet demands): whatever the run does, every file it REPORTS must be well-formed"""
+        import os
+        from mcv.gen import cue as Q
+        from mcv.engine.core import scratch_dir
+        from mcv.checks import c01
+
+        def judge(case, res):
+            if res["status"] == "hang":
+                rep.case(case, ok=False, klass="hang", nontrivial=True, sig="short:hang")
+                return
+            bad = []
+            for p in res["reported"]:
+                b = res["files"].get(p)
+                w = riff.validate(b) if b is not None else None
+                if w is None or w.errors:
+                    bad.append(f"{p}: {(w.errors[:2] if w else 'reported but missing')}")
+            rep.case(case, ok=not bad, klass=f"short:{res['status']}:{len(res['reported'])}reported", nontrivial=True,
+                     detail={"errors": bad[:3]} if bad else None, sig="short:reported-file-invalid")
+        # (a) AKAI: word count / end marker beyond what the file (or its last sector) holds
+        for n, cnt, end in ((300, 5000, 5000), (300, 4026, 4026), (300, 4027, 4027), (4026, 9000, 9000), (10, 2 ** 20, 2 ** 20), (300, 300, 301)):
+            spec = c01.one_file_spec(n, 0, end, hdr={"count": cnt})
+            spec["parts"][0]["vols"][0]["files"].append({"name": "AFTER", "n": 50, "chain": [9], "seq": 2})
+            img = A.build_akai(A.model_from_spec(spec))[0]
+            judge({"origin": "short", "what": "akai-markers", "n": n, "count": cnt, "end": end}, tree.full_run(img, cpu_s=30.0, ls_paths=()))
+        # (b) AKAI image cut inside / at the end of a three-sector mono sample and of a pair
+        spec = c01.structure_spec(1, 1, 3, pair=True)
+        img = A.build_akai(A.model_from_spec(spec))[0]
+        for cut in sorted({len(img) - k for k in (1, 2, 100, 4096, 8191, 8192, 8193, 12000, 16384, 20000)}):
+            if cut > 3 * 8192:
+                judge({"origin": "short", "what": "akai-cut", "cut": cut}, tree.full_run(img[:cut], cpu_s=30.0, ls_paths=()))
+        # (c) CDDA: the bin is shorter than the cue sheet's index positions / ends inside a track
+        for positions, binlen in (([0, 2, 4], 2352 * 3 + 7), ([0, 2, 4], 2352 * 2), ([0, 150], 2352 * 100), ([1, 3], 2352), ([0], 5), ([0, 1], 2352 + 2)):
+            with scratch_dir("c04s") as d:
+                with open(os.path.join(d, "disc.bin"), "wb") as f:
+                    f.write(Q.bin_bytes(binlen))
+                cue = os.path.join(d, "disc.cue")
+                tracks = [{"number": i + 1, "title": "T%d" % i, "indices": [(1, p)]} for i, p in enumerate(positions)]
+                with open(cue, "w") as f:
+                    f.write(Q.cue_text("disc.bin", tracks))
+                res = tree.full_run(cue, cpu_s=30.0, ls_paths=())
+            judge({"origin": "short", "what": "cdda-short-bin", "positions": positions, "binlen": binlen}, res)
 
     def _cdda(self, rep):
         from mcv.checks import c03
